@@ -97,10 +97,10 @@ def main():
         c = CHECKS[pid]
         checks.append({
             "property_id": pid,
-            "quick_cmd": "python3 -m sa.check %s --tier quick" % pid,
-            "thorough_cmd": "python3 -m sa.check %s --tier thorough" % pid,
+            "quick_cmd": "cd /verif && python3 -m sa.check %s --tier quick" % pid,
+            "thorough_cmd": "cd /verif && python3 -m sa.check %s --tier thorough" % pid,
             "evidence_file": "/verif/evidence/%s.json" % pid,
-            "replay_cmd_template": "python3 -m sa.replay {path}",
+            "replay_cmd_template": "cd /verif && python3 -m sa.replay {path}",
             "engine": "sa (irfacts + dataflow over LLVM IR)",
             "technique": c["technique"],
             "level_claimed": {"category": "other", "text": title_of(pid) or c["text"], "design_ref": "DESIGN.md §4 " + pid},
